@@ -87,7 +87,7 @@ def gen_instance(rng, solver):
         cfg['projection'] = rng.random() < 0.3
     elif solver == 'kaczmarz':
         cfg['X'] = P.gen_space(rng)
-        cfg['Ls'] = [P.gen_op(rng, cfg['X'], allow=('matrix', 'identity',
+        cfg['Ls'] = [P.gen_op(rng, cfg['X'], allow=('matrix', 'identity', 'viewid',
                                                     'scaling', 'partial'))
                      for _ in range(rng.randint(1, 4))]
         if rng.random() < 0.3 and len(cfg['Ls']) >= 2:
@@ -124,7 +124,7 @@ def gen_instance(rng, solver):
         cfg['frac'] = u(0.3, 0.9)
         cfg['lam'] = rng.choice([1.0, 1.0, 0.7, 1.5])
     elif solver in ('cg',):
-        cfg['X'], cfg['L'] = _gen_XL(rng, allow_ops=('matrix', 'identity',
+        cfg['X'], cfg['L'] = _gen_XL(rng, allow_ops=('matrix', 'identity', 'viewid',
                                                      'scaling', 'partial'))
         cfg['shift'] = rng.choice([0.1, 1.0, 1e-2])
     elif solver in ('dca', 'prox_dca'):
@@ -132,7 +132,7 @@ def gen_instance(rng, solver):
         cfg['gamma_frac'] = u(0.2, 0.9)
     elif solver in ('gauss_newton', 'newton', 'bfgs', 'broyden', 'nlcg', 'adam'):
         cfg['X'] = P.gen_space(rng, kinds=('rn', 'discr1d'))
-        cfg['L'] = P.gen_op(rng, cfg['X'], allow=('matrix', 'identity',
+        cfg['L'] = P.gen_op(rng, cfg['X'], allow=('matrix', 'identity', 'viewid',
                                                   'scaling', 'partial'))
         cfg['opt'] = rng.choice([0, 1, 2])
     else:
@@ -633,6 +633,10 @@ class CG(Instance):
         P.adjoint_filter(A, cfg['seed'])
         self.A = A
         self.B = A.adjoint * A + cfg['shift'] * o.IdentityOperator(self.X)
+        if cfg['L']['kind'] == 'viewid':
+            # the SPD operator itself hands back its argument (an expression
+            # node would hide that behind its own fresh result)
+            self.B = A
         g = np_rng('x0', cfg['seed'])
         self.xtrue = P.rand_elem(self.X, g)
         self.rhs = self.B(self.xtrue)
